@@ -27,6 +27,15 @@ partial def hasNegZero : Json → Bool
   | .obj kvs => kvs.any (fun kv => hasNegZero kv.2)
   | _ => false
 
+/-- the nodes of a document whose HASH CODES the library looks at: every array (sets and multisets are compared
+    by hash; the list diff hashes its elements) and every direct element of an array. A value below an object key
+    or the root that is neither is compared structurally: an alias between such values (`{"k":""}` vs `{"k":[]}`)
+    explains nothing and does not make a failure a known finding. -/
+partial def hashedNodes : Json → List Json
+  | .arr t xs => .arr t xs :: xs ++ xs.flatMap hashedNodes
+  | .obj kvs => kvs.flatMap (fun kv => hashedNodes kv.2)
+  | _ => []
+
 /-- `AliasFree`: among the given nodes, equal hash codes (and equal identities) imply equivalence.
     Its negation is the class predicate of KF-C04-alias (hash pre-images not domain-separated). -/
 def aliasFree (o : Opts) (nodes : List Json) : Bool :=
@@ -74,7 +83,7 @@ def oracleC01 (o : Opts) (a b : Json) (implEq : Bool) (out : Outcome Json) : Str
   let bad (why : String) : String :=
     if keyTwin o (subterms a ++ subterms b) then "kf KF-C01-keytwin " ++ why
     else if identPerm o (subterms a ++ subterms b) then "kf KF-C01-identperm " ++ why
-    else if !(aliasFree o (subterms a ++ subterms b)) then "kf KF-C04-alias " ++ why
+    else if !(aliasFree o (hashedNodes a ++ hashedNodes b)) then "kf KF-C04-alias " ++ why
     else "fail " ++ why
   match out with
   | .ok r =>
@@ -104,7 +113,7 @@ def oracleC04 (o : Opts) (a b : Json) (implEq implEqRev implRefl : Bool) : Strin
     if keyTwin o (subterms a ++ subterms b) then "kf KF-C01-keytwin " ++ why
     else if identPerm o (subterms a ++ subterms b) then "kf KF-C01-identperm " ++ why
     else if setMode o && (hasNegZero a || hasNegZero b) && equivB o a b && !implEq then "kf KF-C04-negzero " ++ why
-    else if !(aliasFree o (subterms a ++ subterms b)) then "kf KF-C04-alias " ++ why
+    else if !(aliasFree o (hashedNodes a ++ hashedNodes b)) then "kf KF-C04-alias " ++ why
     else "fail " ++ why
   if implEq != spec then cls s!"Equals={implEq} but the advertised equivalence says {spec}"
   else if implEq != implEqRev then cls "Equals is not symmetric on this pair"
@@ -118,9 +127,10 @@ def oracleC05 (o : Opts) (a b : Json) (diffEmpty implEq : Bool) : String :=
     let why := s!"diff empty={diffEmpty} but Equals={implEq}"
     if keyTwin o (subterms a ++ subterms b) then "kf KF-C01-keytwin " ++ why
     else if identPerm o (subterms a ++ subterms b) then "kf KF-C01-identperm " ++ why
-    else if hasPrecisionPair o a b then "kf KF-C05-precision " ++ why
+    -- KF-C05-precision is "Equal under the precision, yet a non-empty diff"; the opposite deviation is not in it
+    else if hasPrecisionPair o a b && implEq && !diffEmpty then "kf KF-C05-precision " ++ why
     else if (hasNegZero a || hasNegZero b) then "kf KF-C05-negzero " ++ why
-    else if !(aliasFree o (subterms a ++ subterms b)) then "kf KF-C04-alias " ++ why
+    else if !(aliasFree o (hashedNodes a ++ hashedNodes b)) then "kf KF-C04-alias " ++ why
     else "fail " ++ why
 
 def strictListPath (p : Path) : Bool :=
@@ -160,13 +170,14 @@ def oracleC08 (c : Json) (d : Diff) (impl : Outcome Json) : String :=
   else
     -- class of KF-C08-swallow: the code reports success although a keyed member's nested patch failed
     let nodes := subterms c ++ d.flatMap (fun h => (h.remove ++ h.add).flatMap subterms)
+    let hnodes := hashedNodes c ++ d.flatMap (fun h => (h.remove ++ h.add) ++ (h.remove ++ h.add).flatMap hashedNodes)
     let ks : List String := (d.flatMap (fun h => h.path.flatMap (fun e => match e with
       | .setKeys po => po.map (·.1) | _ => []))).eraseDups
     if !ks.isEmpty && keyTwin [.set, .setKeys ks] nodes then "kf KF-C01-keytwin " ++ res else
     match patchAll true c d, patchAll false c d with
     | .ok _, .err => "kf KF-C08-swallow " ++ res
     | _, _ =>
-      if !(aliasFree o nodes) then "kf KF-C04-alias " ++ res
+      if !(aliasFree o hnodes) then "kf KF-C04-alias " ++ res
       else if nodes.any hasNegZero then "kf KF-C04-negzero " ++ res
       else res
 
@@ -232,7 +243,7 @@ def oracleC07 (o : Opts) (a b : Json) (d : Diff) (loo : List (Outcome Json)) : S
   let cls (why : String) : String :=
     if keyTwin o (subterms a ++ subterms b) then "kf KF-C01-keytwin " ++ why
     else if identPerm o (subterms a ++ subterms b) then "kf KF-C01-identperm " ++ why
-    else if !(aliasFree o (subterms a ++ subterms b)) then "kf KF-C04-alias " ++ why
+    else if !(aliasFree o (hashedNodes a ++ hashedNodes b)) then "kf KF-C04-alias " ++ why
     else if hasNegZero a || hasNegZero b then "kf KF-C05-negzero " ++ why
     else if hasPrecisionPair o a b then "kf KF-C05-precision " ++ why
     else "fail " ++ why
@@ -349,7 +360,7 @@ def oracleC11 (nc : NumCodec) (o : Opts) (a b : Json) (implText : Outcome String
      | some p =>
        let r := mergePatch a p
        if equivB o r b then "ok"
-       else if setMode o && !(aliasFree o (subterms a ++ subterms b)) then "kf KF-C04-alias MergePatch(a, patch) is not b"
+       else if setMode o && !(aliasFree o (hashedNodes a ++ hashedNodes b)) then "kf KF-C04-alias MergePatch(a, patch) is not b"
        else "fail MergePatch(a, patch) = " ++ encNode r ++ " is not b")
   | .err => "fail RenderMerge returned an error"
   | .panic => "fail RenderMerge panicked"
